@@ -1,8 +1,8 @@
 (* C10 -- Text encoding is transparent.  Statements only, each closed by
    [exact] of a lemma from Proofs/ (EncodingFacts, TransparencyFacts), followed
-   by Print Assumptions; then pins, non-vacuity examples and the refutation
-   witnesses of the full statement (known finding D5) and the readings of the
-   inputs of the repaired finding D6. *)
+   by Print Assumptions; then pins, non-vacuity examples and the readings of the
+   inputs of the repaired findings D5 (UTF-16 lines were cut at every BYTE
+   0x0A) and D6. *)
 From RM Require Import Model.Text Model.Encoding Model.Reader Model.DrvIO.
 From RM Require Import Proofs.EncodingFacts Proofs.ReaderFacts Proofs.TransparencyFacts Proofs.IoWitnesses.
 From RM Require Import Gen.Generated.
@@ -17,6 +17,10 @@ Example pin_boms :
   from_bom bom_utf8 = (Utf8, 3%nat) /\ from_bom bom_le = (Utf16LE, 2%nat) /\
   from_bom bom_be = (Utf16BE, 2%nat) /\ from_bom [] = (Utf8, 0%nat).
 Proof. repeat split. Qed.
+(* Decoder::read_line ends a UTF-16 line at a code unit U+000A only (the shape
+   of the loop is recognised by the translator) *)
+Example pin_read_line_unit_aligned : read_line_unit_aligned = true.
+Proof. reflexivity. Qed.
 Example pin_replacement : REPL = 65533 /\ LF = 10.
 Proof. split; reflexivity. Qed.
 
@@ -89,19 +93,46 @@ Theorem C10_utf8_plain_stream_lines : forall b,
 Proof. exact utf8_plain_stream_lines. Qed.
 Print Assumptions C10_utf8_plain_stream_lines.
 
+(* the same for UTF-16: the raw lines of a UTF-16 stream of ARBITRARY bytes are
+   cut behind every code unit U+000A that starts at an even offset
+   ([chunks16]); a byte 0x0A at an odd offset or with a non-zero partner byte
+   is content; a stream of odd length keeps its lone last byte on the last raw
+   line, where the decoder drops it (C10_odd_tail_le, C10_odd_tail_be).  Every line is the lossy
+   conversion of its own raw line: an unpaired surrogate becomes U+FFFD where
+   it stands (C10_unpaired_surrogate) and touches no other line. *)
+Theorem C10_utf16le_stream_lines : forall b,
+  one_chunk (bom_le ++ b) = IoDone (map (fun l => trim_end (decode_utf16 (u16_le l))) (chunks16 true None b)).
+Proof. exact utf16le_stream_lines. Qed.
+Print Assumptions C10_utf16le_stream_lines.
+
+Theorem C10_utf16be_stream_lines : forall b,
+  one_chunk (bom_be ++ b) = IoDone (map (fun l => trim_end (decode_utf16 (u16_be l))) (chunks16 false None b)).
+Proof. exact utf16be_stream_lines. Qed.
+Print Assumptions C10_utf16be_stream_lines.
+
+(* the raw lines are the successive cuts of the reference [scan16] *)
+Theorem C10_chunks16_are_the_cuts : forall le b st, b <> [] ->
+  chunks16 le st b = fst (scan16 le st b) :: chunks16 le None (snd (scan16 le st b)).
+Proof. exact chunks16_split. Qed.
+Print Assumptions C10_chunks16_are_the_cuts.
+
+(* a code unit ends the line iff it IS U+000A, whatever bytes it contains *)
+Theorem C10_only_unit_000A_ends_a_line : forall u, 0 <= u < 65536 ->
+  is_lf_unit true (u mod 256) (u / 256) = (u =? LF) /\
+  is_lf_unit false (u / 256) (u mod 256) = (u =? LF).
+Proof. exact only_unit_lf_ends_a_line. Qed.
+Print Assumptions C10_only_unit_000A_ends_a_line.
+
 (* ---------- T10c: transparency ---------- *)
 
-(* Full statement (REFUTED on the pinned tree, see the witness below):
-     forall s, scalar_str s ->
-       one_chunk (utf8_enc s) = one_chunk (bom_utf8 ++ utf8_enc s)
-       = one_chunk (bom_le ++ utf16le_enc s) = one_chunk (bom_be ++ utf16be_enc s).
-   Proved outside the one remaining class: [lf_safe s] excludes D5 (a UTF-16
-   code unit other than U+000A with a byte 0x0A).  D4 and D6 are repaired and
-   no longer excluded: no condition on the delivery or on the length of the
-   stream.  A BOM-less text that itself starts with U+FEFF *is* a text with
-   BOM (interpretation).  The lines are those of the text, for EVERY faultless
-   delivery schedule. *)
-Theorem C10_transparency : forall s, scalar_str s -> lf_safe s ->
+(* The full statement, for EVERY Unicode content: the four encodings of a
+   scalar-value text give the same lines -- those of the text -- for EVERY
+   faultless delivery schedule.  No exclusion is left: D5 (a UTF-16 code unit
+   other than U+000A with a byte 0x0A, e.g. U+4E0A, U+0A41, U+010A, U+1040A,
+   ended the line), D4 and D6 are repaired.  A BOM-less text that itself
+   starts with U+FEFF *is* a text with BOM (interpretation), hence the side
+   condition of the last clause. *)
+Theorem C10_transparency : forall s, scalar_str s ->
   forall sch, faultless sch ->
   let L := IoDone (lines_of_text s) in
   read_all_lines (mk_reader (bom_utf8 ++ utf8_enc s) sch) = L /\
@@ -111,10 +142,20 @@ Theorem C10_transparency : forall s, scalar_str s -> lf_safe s ->
 Proof. exact transparency. Qed.
 Print Assumptions C10_transparency.
 
-(* the exclusion is decidable *)
-Theorem C10_lf_safe_decidable : forall s, lf_safeb s = true <-> lf_safe s.
-Proof. exact lf_safeb_spec. Qed.
-Print Assumptions C10_lf_safe_decidable.
+(* in the words of the property: the same result from all four forms *)
+Theorem C10_four_encodings_agree : forall s, scalar_str s -> hd 0 s <> 65279 ->
+  one_chunk (utf8_enc s) = one_chunk (bom_utf8 ++ utf8_enc s) /\
+  one_chunk (utf8_enc s) = one_chunk (bom_le ++ utf16le_enc s) /\
+  one_chunk (utf8_enc s) = one_chunk (bom_be ++ utf16be_enc s).
+Proof. exact four_encodings_agree. Qed.
+Print Assumptions C10_four_encodings_agree.
+
+(* the cut of an encoded text is the encoding of the cut of the text *)
+Theorem C10_utf16_cut_is_text_cut : forall s, scalar_str s ->
+  scan16 true None (utf16le_enc s) = (utf16le_enc (fst (split_line LF s)), utf16le_enc (snd (split_line LF s))) /\
+  scan16 false None (utf16be_enc s) = (utf16be_enc (fst (split_line LF s)), utf16be_enc (snd (split_line LF s))).
+Proof. exact utf16_cut_is_text_cut. Qed.
+Print Assumptions C10_utf16_cut_is_text_cut.
 
 (* a clean stream never fails, whatever its encoding and its bytes: on every
    faultless delivery the decode yields a list of lines (D6 -- UnexpectedEof
@@ -132,7 +173,6 @@ Print Assumptions C10_clean_stream_never_fails.
 Definition sample : str := lit "Title:" ++ [28450; 128512; 32; 13; 10; 120].
 
 Example C10_nonvacuous :
-  lf_safeb sample = true /\
   show (one_chunk (utf8_enc sample)) = show (IoDone [lit "Title:" ++ [28450; 128512]; [120]]) /\
   show (one_chunk (bom_utf8 ++ utf8_enc sample)) = show (one_chunk (utf8_enc sample)) /\
   show (one_chunk (bom_le ++ utf16le_enc sample)) = show (one_chunk (utf8_enc sample)) /\
@@ -144,22 +184,32 @@ Example C10_lossy_example :
   dump_ostr (decode Utf8 [224; 160; 65; 240; 144]) = [0; 3; 65533; 65; 65533].
 Proof. vm_compute. reflexivity. Qed.
 
-(* ---------- refutation witnesses of the full statement ---------- *)
+(* ---------- the inputs of the repaired findings ---------- *)
 
-(* D5: U+4E0A has the bytes 4E 0A: both UTF-16 forms cut the line after it *)
-Theorem C10_transparency_refuted :
-  exists s, scalar_str s /\
-    one_chunk (bom_utf8 ++ utf8_enc s) <> one_chunk (bom_le ++ utf16le_enc s) /\
-    one_chunk (bom_utf8 ++ utf8_enc s) <> one_chunk (bom_be ++ utf16be_enc s).
-Proof. exact transparency_refuted. Qed.
-Print Assumptions C10_transparency_refuted.
-
-Example C10_d5_readings :
-  lf_safeb d5_text = false /\
+(* former D5: U+4E0A has the bytes 4E 0A (before the repair both UTF-16 forms
+   gave "Title:<U+4E0A>" | "x"); a text with U+0A41 U+010A U+1040A U+0A00 U+0AFF
+   U+FF0A U+200A; single-byte and uneven delivery *)
+Example C10_former_d5_texts :
+  scalar_str d5_text /\ scalar_str d5_text2 /\
   show (one_chunk (bom_utf8 ++ utf8_enc d5_text)) = show (IoDone [lit "Title:" ++ [19978; 120]]) /\
-  show (one_chunk (bom_le ++ utf16le_enc d5_text)) = show (IoDone [lit "Title:" ++ [19978]; [120]]) /\
-  show (one_chunk (bom_be ++ utf16be_enc d5_text)) = show (IoDone [lit "Title:" ++ [19978]; [120]]).
-Proof. vm_compute. repeat split. Qed.
+  show (one_chunk (bom_le ++ utf16le_enc d5_text)) = show (IoDone [lit "Title:" ++ [19978; 120]]) /\
+  show (one_chunk (bom_be ++ utf16be_enc d5_text)) = show (IoDone [lit "Title:" ++ [19978; 120]]) /\
+  show (one_chunk (bom_utf8 ++ utf8_enc d5_text2)) = show (IoDone (lines_of_text d5_text2)) /\
+  show (one_chunk (bom_le ++ utf16le_enc d5_text2)) = show (IoDone (lines_of_text d5_text2)) /\
+  show (one_chunk (bom_be ++ utf16be_enc d5_text2)) = show (IoDone (lines_of_text d5_text2)) /\
+  show (IoDone (lines_of_text d5_text2)) = show (IoDone [[2625; 266; 66570; 2560; 2815; 65290]; lit "z"; [8202; 120]]) /\
+  show (read_all_lines (mk_reader (bom_le ++ utf16le_enc d5_text2) (repeat (Chunk 1) 40))) = show (IoDone (lines_of_text d5_text2)) /\
+  show (read_all_lines (mk_reader (bom_be ++ utf16be_enc d5_text2) [Chunk 3; Interrupted; Chunk 2; Chunk 1; Chunk 5])) = show (IoDone (lines_of_text d5_text2)).
+Proof. exact former_d5_texts_decode. Qed.
+
+(* malformed UTF-16 streams: what their lines are *)
+Example C10_malformed_utf16_lines :
+  show (one_chunk (bom_be ++ [0; 97; 10; 0; 98; 0; 10; 99])) = show (IoDone [[97; 2560; 25088; 2659]]) /\
+  show (one_chunk (bom_le ++ [97; 0; 0; 10; 10; 0; 98])) = show (IoDone [[97; 2560]; []]) /\
+  show (one_chunk (bom_le ++ [97; 0; 10; 1; 10])) = show (IoDone [[97; 266]]) /\
+  show (one_chunk (bom_be ++ [0; 10; 10])) = show (IoDone [[]; []]) /\
+  show (one_chunk (bom_be ++ [10; 10; 0; 10; 0; 98])) = show (IoDone [[2570]; [98]]).
+Proof. exact malformed_utf16_lines. Qed.
 
 (* former D6 (repaired): a UTF-16LE stream that ends right after the low byte
    of a line feed.  The odd trailing byte is a last raw line that decodes to
